@@ -170,6 +170,28 @@ def run(ck):
           else f"is_ready() returns `{norm(rets2[0].ast.value) if rets2 else None}`; expected the "
           f"conjunction of 'simulation task exists' and 'error slot empty'", isr, isr.node)
 
+    # "while the circuit is shutting down it raises": shutdown() makes is_ready() false at once,
+    # i.e. it records the stop in the error slot (through abort()) before its first await; merely
+    # requesting the cancellation of the simulation task leaves a window in which the gate is open
+    sh = prog.func('simulator:Circuit.shutdown')
+    gsh = ck.cfg(sh.fid, 'M0')
+    awaits = nodes_where(gsh, lambda n: any(isinstance(x, ast.Await) and '_simtask' in norm(x.value)
+                                            for x in walk_shallow(n.ast)))
+    aborts = nodes_where(gsh, lambda n: any(call_name(c) == 'abort' and recv(c) == 'self' for c in node_calls(n)))
+    ab = prog.func('simulator:Circuit.abort')
+    gab = ck.cfg(ab.fid, 'M0')
+    ew = [w for w in nodes_where(gab, lambda n: n.kind == 'stmt' and isinstance(n.ast, ast.Assign) and
+                                 any(norm(t) == 'self._error' for t in n.ast.targets))]
+    cn = nodes_where(gab, lambda n: any(call_name(c) == 'cancel' for c in node_calls(n)))
+    ok = bool(awaits) and bool(aborts) and all(any(gsh.dominates(a, w) for a in aborts) for w in awaits) \
+        and bool(ew) and all(any(gab.dominates(e_, c_) for e_ in ew) for c_ in cn)
+    ck.ob(R1, f"{sh.fid} :: the stop is recorded before shutdown() first waits", ok,
+          "self.abort(...) (which writes the error slot before it cancels) dominates the await of "
+          "the simulation task: is_ready() is false from the moment shutdown is requested" if ok else
+          "shutdown() waits for the simulation task without having recorded the stop in the error "
+          "slot: until the cancellation is delivered is_ready() stays true and ExtEvent.send() "
+          "delivers into a circuit that is shutting down", sh, awaits[0].ast if awaits else sh.node)
+
     # ------------------------------------------------------------------ R14.1b
     init = ext.methods.get('__init__')
     ck.need(R1b, init is not None, "ExtEvent.__init__ not found")
